@@ -91,7 +91,9 @@ def main(config, kconfig, sdkconfig_rename, env, env_file, version):
         env_vars = json.load(env_file)
         os.environ.update(env_vars)
 
-    run_server(kconfig, config, sdkconfig_rename)
+    # The initial message uses the requested protocol version (clamped to what the server supports)
+    default_version = min(max(version, MIN_PROTOCOL_VERSION), MAX_PROTOCOL_VERSION)
+    run_server(kconfig, config, sdkconfig_rename, default_version=default_version)
 
 
 def run_server(kconfig, sdkconfig, sdkconfig_rename, default_version=MAX_PROTOCOL_VERSION):
